@@ -135,6 +135,23 @@ func getEndOfLastValuePositionInFile(fname string, startPos int64) (int64, error
 	}
 }
 
+// followResetAOF empties the local aof and the dataset, so that the leader
+// can stream its aof from the beginning.
+func (s *Server) followResetAOF() error {
+	if s.aof != nil {
+		fname := s.aof.Name()
+		s.aof.Close()
+		var err error
+		s.aof, err = os.Create(fname)
+		if err != nil {
+			log.Fatalf("could not recreate aof, possible data loss. %s", err.Error())
+			return err
+		}
+	}
+	s.reset()
+	return nil
+}
+
 // followCheckSome is not a full checksum. It just "checks some" data.
 // We will do some various checksums on the leader until we find the correct position to start at.
 func (s *Server) followCheckSome(addr string, followc int, auth string,
@@ -147,8 +164,13 @@ func (s *Server) followCheckSome(addr string, followc int, auth string,
 	if int(s.followc.Load()) != followc {
 		return 0, errNoLongerFollowing
 	}
+	if s.aof != nil {
+		// the checksums read the file, make sure it has everything
+		s.flushAOF(false)
+	}
 	if s.aofsz < checksumsz {
-		return 0, nil
+		// too small to compare with the leader, start over
+		return 0, s.followResetAOF()
 	}
 
 	conn, err := DialTimeout(addr, time.Second*2)
@@ -194,13 +216,7 @@ func (s *Server) followCheckSome(addr string, followc int, auth string,
 	fullpos := pos
 	fname := s.aof.Name()
 	if pos == 0 {
-		s.aof.Close()
-		s.aof, err = os.Create(fname)
-		if err != nil {
-			log.Fatalf("could not recreate aof, possible data loss. %s", err.Error())
-			return 0, err
-		}
-		return 0, nil
+		return 0, s.followResetAOF()
 	}
 
 	// we want to truncate at a command location
@@ -209,7 +225,7 @@ func (s *Server) followCheckSome(addr string, followc int, auth string,
 	if err != nil {
 		return 0, err
 	}
-	if pos == fullpos {
+	if pos == fullpos && pos == int64(s.aofsz) {
 		if s.opts.ShowDebugMessages {
 			log.Debug("follow: aof fully intact")
 		}
